@@ -137,7 +137,7 @@ mod serde {
 				self.pe
 					.section_headers()
 					.iter()
-					.position(|&sect| dd.VirtualAddress >= sect.VirtualAddress && dd.VirtualAddress < sect.VirtualAddress + sect.VirtualSize)
+					.position(|&sect| dd.VirtualAddress >= sect.VirtualAddress && dd.VirtualAddress - sect.VirtualAddress < sect.VirtualSize)
 			});
 			state.serialize_field("DataDirectory.Sections", &SerdeIter(data_directory_sects))?;
 
